@@ -505,6 +505,8 @@ var concurrentPrograms = []string{
 	"(let ([m (json:load-string \"{\\\"b\\\":[3,1,2],\\\"a\\\":[]}\")]) (append! (get m \"a\") whoami) (stable-sort < (get m \"b\")) (list m (json:dump-string m) (json:load-string \"[]\")))",
 	"(list (string:join (list \"a\" (to-string whoami) \"b\") \"-\") (string:split \"x,y,z\" \",\") (format-string \"{}/{}\" whoami '(1 2)))",
 	"(s:deftype \"small\" s:int (s:lt 10)) (list (s:validate small whoami) (s:validate (s:make-validator \"v\" s:array (s:of small) (s:len 2)) (vector whoami 3)))",
+	"(list (regexp:regexp-match? (format-string \"^a{}[0-9]+$\" whoami) \"a1\") (regexp:regexp-match? \"^b+$\" \"bb\") (regexp:regexp-match? (format-string \"c{}\" (+ whoami 1000)) \"c\") (string:uppercase (to-string whoami)))",
+	"(list (s:validate (s:make-validator \"v\" s:string (s:regexp (format-string \"^{}+$\" whoami))) (to-string whoami)) (json:dump-string (sorted-map (to-string whoami) (vector whoami))) (json:load-string (format-string \"[{}]\" whoami)) (time:format-rfc3339 (time:parse-rfc3339 \"2020-01-02T03:04:05Z\")))",
 	"(list (regexp:regexp-match? (regexp:regexp-compile \"^[0-9]+$\") (to-string whoami)) (base64:encode (to-bytes (to-string whoami))) (math:abs (- 0 whoami)))",
 }
 
@@ -763,6 +765,7 @@ func freeRunning(r *core.Run) {
 				defer wg.Done()
 				for it := 0; it < 6; it++ {
 					env := newEnv(s.std)
+					who(env, id*100+it)
 					loadShared(env, s, nil)
 					loadShared(env, s, context.Background())
 				}
@@ -852,7 +855,9 @@ func run(r *core.Run) {
 	if only == "" || only == "B" {
 		histories(r)
 	}
-	if only == "" || only == "D" {
+	if (only == "" || only == "D") && os.Getenv("C09_SKIP_D") == "" {
+		// C09_SKIP_D: check.sh sets it when the race-detector pass over this very part already reported a race -- a
+		// racing map access can end a free-running process with a fatal error, and the finding is already made
 		freeRunning(r)
 	}
 	if only == "" || only == "E" {
